@@ -305,7 +305,16 @@ class Session:
 #   bulk     sp su fill(0..1) tie(bool) [limit]   pre-fill by direct SQL (mirrored with `bulk`)
 #   mark     id term size time(null|offset µs relative to the clock)    mark_uploaded
 #   needs    id term mu mb mt      needs_uploading ; upinfo id term ; cleanup_uploads keep
+#   marks    ids{"hi":[a,b],"lo":[c,d]} term size step     one mark_uploaded per id (h<<24)|l, h in a..b-1, l in c..d-1, the clock
+#            advancing `step` µs before each; mirrored call by call (model `mark`, ghost arrival), tables compared once at the end
 #   collide  p      probability that gen_random_id is steered onto a taken id for the next gets
+# Every op that calls the IDManager may carry "who": k (default 0): the call is made through the k-th IDManager
+# OBJECT opened on the same database file (another process of the session, seen sequentially). The model and the
+# specification are about the database, so they do not know who called.
+# Terminal histories (C01, `terminal=`): `get` may carry "spa" / "sua" = the FORM in which the space / subspace is
+# passed to assign_id: {"t":"none"} (rely on the configured default), {"t":"obj"}, {"t":"str","v":"8bit"},
+# {"t":"int","v":8}; "sp"/"su" always name the space/subspace that APPLIES to the call (the oracle's view).
+#   setcfg  id_space? id_subspace?   ({"t":"obj","v":[..]} | {"t":"str","v":".."})   terminal.id_space = … / .id_subspace = …
 C01_CLAUSES = {"id-not-member-of-requested-subspace"}
 C01_PREFIXES = ("row-outside-its-space", "table-keys-not-unique")
 C04_CLAUSES = {"no-upload-although-terminal-may-have-lost-image", "reupload-although-image-still-there",
@@ -377,6 +386,11 @@ def run_history(drv, case: dict, *, terminal=None, stop_on_first: bool = False) 
         sess = Session(max_ids=max_ids, seed=seed, start_us=case.get("start", T0))
     with sess as s:
         im = s.im
+        # further IDManager objects on the same file ("who": 1, 2, …), each with its own statement trace
+        mans, traces = [s.man], [s.trace]
+        nwho = 1 + max([int(o.get("who", 0)) for o in ops] or [0])
+        if nwho > 1 and terminal is not None:
+            raise ValueError("'who' is not supported in terminal histories")
         ask(f"reset {max_ids}")
         before = s.dump()
         ask("impl " + enc_dump(before))
@@ -396,10 +410,18 @@ def run_history(drv, case: dict, *, terminal=None, stop_on_first: bool = False) 
 
         im.IDSpace.gen_random_id = steered
         try:
+            for _k in range(1, nwho):
+                m2 = im.IDManager(s.path, max_ids_per_subspace=max_ids)
+                mans.append(m2)
+                traces.append(SqlTrace(m2.conn))
             for op in ops:
                 lab = op.get("n")
                 kind = op["op"]
                 f.count("op:" + kind)
+                who = int(op.get("who", 0))
+                man, trace = mans[who], traces[who]
+                if who:
+                    f.count("op-by-other-manager")
                 s.clock.advance(int(op.get("dt", 0)))
                 now = s.clock.us
                 s.secrets.reseed(f"{seed}:{lab}")
@@ -429,8 +451,16 @@ def run_history(drv, case: dict, *, terminal=None, stop_on_first: bool = False) 
                     ask("impl " + enc)
                     viol(ask("spec_wf"))
 
-                if s.trace:
-                    s.trace.take()
+                for _t in traces:
+                    if _t:
+                        _t.take()
+                if kind == "setcfg":
+                    # terminal histories: change the configured default space / subspace through the public properties
+                    for name in ("id_space", "id_subspace"):
+                        if name in op:
+                            setattr(terminal, name, _cfg_value(im, name, op[name]))
+                            f.count("setcfg:" + name + ":" + op[name]["t"])
+                    continue
                 # ------------------------------------------------------------------ get
                 if kind == "get":
                     sp, su, d = op["sp"], op["su"], op["d"]
@@ -448,28 +478,34 @@ def run_history(drv, case: dict, *, terminal=None, stop_on_first: bool = False) 
                         if _RX_DELETE_IN.match(stmt):
                             pending[0] = {r[0] for r in s.conn2.execute(f"SELECT id FROM {_ns}")}
 
-                    if s.trace:
-                        s.trace.hook = hook
+                    if trace:
+                        trace.hook = hook
                     try:
                         if terminal is not None:
                             sp_arg, su_arg = s.space(sp), s.sub(su)
                             if op.get("strform"):
                                 # the textual forms the configuration layers and the CLI use (`str(IDSpace)`, "begin:end")
                                 sp_arg, su_arg = str(sp_arg), str(su_arg)
+                            if "spa" in op:
+                                sp_arg = _arg_form(op["spa"], sp_arg)
+                                f.count("assign_id-space-form:" + op["spa"]["t"])
+                            if "sua" in op:
+                                su_arg = _arg_form(op["sua"], su_arg)
+                                f.count("assign_id-subspace-form:" + op["sua"]["t"])
                             inst = terminal.assign_id(d, cols=1, rows=1, id_space=sp_arg, id_subspace=su_arg)
                             rid = inst.id
                             d = inst.get_description()
                         else:
-                            rid = s.man.get_id(d, s.space(sp), subspace=s.sub(su))
+                            rid = man.get_id(d, s.space(sp), subspace=s.sub(su))
                     except Exception as e:          # noqa: BLE001
                         exc, rid = _exc_kind(e), None
                     finally:
-                        if s.trace:
-                            s.trace.hook = None
+                        if trace:
+                            trace.hook = None
                     if pending[0] is not None:
                         post = {r[0] for r in s.conn2.execute(f"SELECT id FROM {NS[spi]}")}
                         snaps.append(sorted(pending[0] - post))
-                    stmts = s.trace.take() if s.trace else []
+                    stmts = trace.take() if trace else []
                     after = s.dump()
                     rounds, ncleanups, blocks = get_id_trace_choices(stmts)
                     removed = snaps
@@ -508,7 +544,7 @@ def run_history(drv, case: dict, *, terminal=None, stop_on_first: bool = False) 
                         continue
                     exc = None
                     try:
-                        s.man.set_id(i, op["d"])
+                        man.set_id(i, op["d"])
                     except Exception as e:          # noqa: BLE001
                         exc = _exc_kind(e)
                     after = s.dump()
@@ -525,7 +561,7 @@ def run_history(drv, case: dict, *, terminal=None, stop_on_first: bool = False) 
                         continue
                     exc = None
                     try:
-                        s.man.del_id(i)
+                        man.del_id(i)
                     except Exception as e:          # noqa: BLE001
                         exc = _exc_kind(e)
                     after = s.dump()
@@ -539,7 +575,7 @@ def run_history(drv, case: dict, *, terminal=None, stop_on_first: bool = False) 
                 elif kind == "cleanup":
                     sp, su = op["sp"], op["su"]
                     mx = op.get("max")
-                    s.man.cleanup(s.space(sp), s.sub(su), max_ids=mx)
+                    man.cleanup(s.space(sp), s.sub(su), max_ids=mx)
                     after = s.dump()
                     spi = SPACES.index((sp[0], bool(sp[1])))
                     gone = _gone(before["ids"][spi], after["ids"][spi], None)
@@ -553,7 +589,7 @@ def run_history(drv, case: dict, *, terminal=None, stop_on_first: bool = False) 
                 # ------------------------------------------------------------------ reads
                 elif kind == "get_all":
                     sp, su = op.get("sp"), op["su"]
-                    rows = s.man.get_all(None if sp is None else s.space(sp), s.sub(su))
+                    rows = man.get_all(None if sp is None else s.space(sp), s.sub(su))
                     impl = [(r.id, r.description, to_us(r.atime)) for r in rows]
                     after = s.dump()
                     model = ask(f"getall {sp_tok(sp)} {su[0]} {su[1]}")
@@ -568,7 +604,7 @@ def run_history(drv, case: dict, *, terminal=None, stop_on_first: bool = False) 
                     f.count("get_all-ties" if len({r[2] for r in impl}) < len(impl) else "get_all-no-ties")
                 elif kind == "count":
                     sp, su = op.get("sp"), op["su"]
-                    n = s.man.count(None if sp is None else s.space(sp), s.sub(su))
+                    n = man.count(None if sp is None else s.space(sp), s.sub(su))
                     after = s.dump()
                     model = ask(f"count {sp_tok(sp)} {su[0]} {su[1]}")
                     if str(n) != model:
@@ -583,7 +619,7 @@ def run_history(drv, case: dict, *, terminal=None, stop_on_first: bool = False) 
                         continue
                     exc, info = None, None
                     try:
-                        info = s.man.get_info(i)
+                        info = man.get_info(i)
                     except Exception as e:          # noqa: BLE001
                         exc = _exc_kind(e)
                     after = s.dump()
@@ -628,9 +664,9 @@ def run_history(drv, case: dict, *, terminal=None, stop_on_first: bool = False) 
                     bound = _bound(before, i)
                     try:
                         if op.get("time") is None:
-                            s.man.mark_uploaded(i, term, size=size)
+                            man.mark_uploaded(i, term, size=size)
                         else:
-                            s.man.mark_uploaded(i, term, size=size, upload_time=s.clock.cls.fromisoformat(from_us(t).isoformat()))
+                            man.mark_uploaded(i, term, size=size, upload_time=s.clock.cls.fromisoformat(from_us(t).isoformat()))
                     except Exception as e:          # noqa: BLE001
                         exc = _exc_kind(e)
                     after = s.dump()
@@ -642,9 +678,29 @@ def run_history(drv, case: dict, *, terminal=None, stop_on_first: bool = False) 
                     if exc is None and bound is not None:
                         ask(f"ghost_arrive {hxs(term)} {i} {hxs(bound)} {size} {t}")
                         f.count("arrivals")
+                elif kind == "marks":
+                    rng_ids = op["ids"]
+                    ids = [(h << 24) | l for h in range(*rng_ids["hi"]) for l in range(*rng_ids["lo"])]
+                    term, size, step = op["term"], int(op["size"]), int(op.get("step", 1))
+                    bound_of = {r[0]: r[1] for t in before["ids"] for r in t}
+                    lines = []
+                    for i in ids:
+                        s.clock.advance(step)
+                        man.mark_uploaded(i, term, size=size)
+                        lines.append(f"mark {i} {hxs(term)} {size} {s.clock.us}")
+                        if i in bound_of:
+                            lines.append(f"ghost_arrive {hxs(term)} {i} {hxs(bound_of[i])} {size} {s.clock.us}")
+                            f.count("arrivals")
+                    bad = [r for r in drv.ask_many(lines) if r != "ok"]
+                    if bad:
+                        mism("mark_uploaded-result", "ok", bad[0])
+                    f.count("bulk-marks", len(ids))
+                    after = s.dump()
+                    sync(after)
+                    viol(ask("spec_idsunchanged"))
                 elif kind == "cleanup_uploads":
                     n = int(op["keep"])
-                    s.man.cleanup_uploads(n)
+                    man.cleanup_uploads(n)
                     after = s.dump()
                     kept = ",".join(f"{r[0]}:{hxs(r[1])}" for r in after["up"]) or "-"
                     res = ask(f"cleanup_uploads {n} {kept}")
@@ -658,7 +714,7 @@ def run_history(drv, case: dict, *, terminal=None, stop_on_first: bool = False) 
                     if i is None or i < 0:
                         f.count("skipped-unresolved-ref")
                         continue
-                    ui = s.man.get_upload_info(i, op["term"])
+                    ui = man.get_upload_info(i, op["term"])
                     after = s.dump()
                     impl = ("none" if ui is None else
                             f"info {ui.id} {hxs(ui.description)} {to_us(ui.upload_time)} {hxs(ui.terminal)} {ui.size} {ui.bytes_ago} {ui.uploads_ago}")
@@ -676,7 +732,7 @@ def run_history(drv, case: dict, *, terminal=None, stop_on_first: bool = False) 
                     mu, mb, mt = int(op["mu"]), int(op["mb"]), int(op["mt"])
                     exc, ans = None, None
                     try:
-                        ans = s.man.needs_uploading(i, term, max_uploads_ago=mu, max_bytes_ago=mb,
+                        ans = man.needs_uploading(i, term, max_uploads_ago=mu, max_bytes_ago=mb,
                                                     max_time_ago=timedelta(microseconds=mt))
                     except Exception as e:          # noqa: BLE001
                         exc = _exc_kind(e)
@@ -717,7 +773,31 @@ def run_history(drv, case: dict, *, terminal=None, stop_on_first: bool = False) 
                     break
         finally:
             im.IDSpace.gen_random_id = orig_gen
+            for _t, _m in list(zip(traces, mans))[1:]:
+                try:
+                    _t.close()
+                    _m.close()
+                except Exception:          # noqa: BLE001
+                    pass
     return f
+
+
+def _arg_form(form: dict, obj):
+    """the value passed to assign_id for a space / subspace given its FORM (see the op table above)"""
+    t = form["t"]
+    if t == "none":
+        return None
+    if t == "obj":
+        return obj
+    if t in ("str", "int"):
+        return form["v"]
+    raise ValueError(f"unknown argument form {form}")
+
+
+def _cfg_value(im, name: str, form: dict):
+    if form["t"] == "obj":
+        return im.IDSpace(form["v"][0], bool(form["v"][1])) if name == "id_space" else im.IDSubspace(form["v"][0], form["v"][1])
+    return form["v"]
 
 
 class _TerminalSession:
